@@ -179,6 +179,13 @@ def run(ctx) -> list[Inst]:
             if isinstance(st, ast.Assign) and len(st.targets) == 1 and is_name(st.targets[0], res):
                 init = st.value
         what = f'{op} builds the right set'
+        shared = [sub.value.value for sub in ast.walk(c.pattern)
+                  if isinstance(sub, ast.MatchValue) and isinstance(sub.value, ast.Constant)]
+        if len(shared) > 1:
+            # one case body for several operators, told apart inside it by something other than a nested `match`
+            # (if / elif on the type, a conditional expression, a table): the per-operator construction is not isolated
+            add(op, what, 'unproven', f'the operators {shared} share one case body without a nested match', line=c.pattern.lineno)
+            continue
         verdict, msg = _classify_setop(op, body, res, init, L, R)
         add(op, what, verdict, msg, line=c.pattern.lineno)
 
